@@ -509,6 +509,13 @@ func ctorTemplates() []Tmpl {
 		n := &Node{Pre: []*Line{b.line("var (")}, Kids: []*Node{b.stmt(x + " = 30"), {Pre: []*Line{zl}}, {Pre: []*Line{zl2}}}, Post: []*Line{b.line(")")}}
 		return []*Node{n, b.stmt("_, _, _ = " + x + ", " + y + ", " + z)}
 	}})
+	// more names than values: one comma-ok / multi-value initialiser for all of them (an initialised spec, not a zero value)
+	ts = append(ts, Tmpl{Name: "var-names-outnumber-values", Cat: CTOR, Make: func(b *B, t *Type, env *Env) []*Node {
+		x, y := b.v(), b.v()
+		l := b.tl("var "+x+", "+y+" = map[string]%T{}[\"k\"]", useT(UVarInert, t, ""), composite(refT(t, SubLit)))
+		l.Feature = "var-names-outnumber-values"
+		return []*Node{{Pre: []*Line{l}}, b.stmt("_, _ = " + x + ", " + y)}
+	}})
 	ts = append(ts, one("var-ptr", false, "var $x *%T", func(t *Type) []*Use { return []*Use{useT(UVarInert, t, ""), refT(t, SubVar)} }, true))
 	ts = append(ts, one("var-blank", false, "var _ %T", func(t *Type) []*Use { return []*Use{useT(UVarInert, t, ""), refT(t, SubVar)} }, false))
 	ts = append(ts, Tmpl{Name: "var-init-call", Cat: CTOR, Make: func(b *B, t *Type, env *Env) []*Node {
